@@ -1386,7 +1386,7 @@ def hexfile_variants(rng, good):
     if k == 7:
         return (h + "0").encode(), "odd"
     if k == 8:
-        return (h[:4] + "zz" + h[6:]).encode(), "nonhex"
+        return rng.choice([(h[:4] + "zz" + h[6:]), "+" + h[1:], h[:2] + "+f" + h[4:], "-" + h[1:], "0x" + h[2:], h[:-2] + " +"]).encode(), "nonhex"
     if k == 9:
         return b"", "empty"
     if k == 10:
@@ -1638,11 +1638,23 @@ def extra_C20(eng, cases):
     # validate and info
     vlines, vplans = [], []
     rng = eng.rng.fork("c20v")
-    for i in range(len(plans) // 2 + 10):
+    for i in range(len(plans) // 2 + 34):
         wd = os.path.join(root, "v%d" % i)
         os.makedirs(wd, exist_ok=True)
         argv = [CLI, "--json", "validate"]
         toks = []
+        VPROBES = [b"+f", b"00 00 00 01 +7", b"+a+b+c", b"-1", b"0x00", b"fg", b"0 0", b"\n", b"AbCdEf", b"00\r\n01\t02 ", b"+0", b"f+"]
+        if i < 2 * len(VPROBES):
+            # deterministic probes: one input whose text is almost hexadecimal (signs, prefixes, stray letters)
+            name = ("video", "audio")[i % 2]
+            content = VPROBES[i // 2]
+            path = os.path.join(wd, name)
+            open(path, "wb").write(content)
+            argv.extend(["--" + name, path])
+            toks = [hx(content), "~"] if name == "video" else ["~", hx(content)]
+            vlines.append("validate v%d %s %s" % (i, toks[0], toks[1]))
+            vplans.append(("v%d" % i, argv))
+            continue
         for name in ("video", "audio"):
             if rng.chance(2, 3):
                 if rng.chance(1, 8):
@@ -2109,3 +2121,11 @@ def range_guard_decision(case, m, i):
 
 
 PROPS["C16"]["decision_touch"] = range_guard_decision
+for _p in ("C03", "C11", "C16", "C10"):
+    PROPS[_p]["fams"] = PROPS[_p]["fams"] + [("fam_jitter_cancel", 45, 600)]
+for _p in ("C01", "C13", "C08"):
+    PROPS[_p]["fams"] = PROPS[_p]["fams"] + [("fam_big_samples", 16, 100)]
+PROPS["C14"]["fams"] = PROPS["C14"]["fams"] + [("fam_exh_units", 1, 20000)]
+PROPS["C12"]["fams"] = PROPS["C12"]["fams"] + [("fam_exh_units", 1, 20000)]
+for _p in ("C13", "C17", "C06"):
+    PROPS[_p]["fams"] = PROPS[_p]["fams"] + [("fam_sink_long", 12, 200)]
